@@ -204,3 +204,45 @@ func c12RejectionLeavesStateAlone(ctx *core.Ctx, r *RT) {
 		ctx.Unresolved("C12.R16", "size refusals", "no method builds a REQUEST_TOO_LARGE exception")
 	}
 }
+
+// c15CloseAnnouncedOnSuccessOnly — C15.R12. A transport's Close announces the
+// close to everybody waiting on Closed() by calling the base transport's Close
+// with the cause (nil = clean). That announcement belongs to the path on which
+// Close succeeded: if it is deferred above a step that can fail, a Close that
+// returns an error has still published "closed cleanly" — and, the transport
+// not being torn down, the next Close publishes again on the closed channel
+// (panic: send on closed channel).
+func c15CloseAnnouncedOnSuccessOnly(ctx *core.Ctx, r *RT) {
+	ctx.Rule("C15.R12", "a Close that fails has announced nothing: the base transport's Close (the close cause) is not executed on a path that returns an error", 1)
+	n := 0
+	for _, fn := range r.Impl("FTransport", "Close") {
+		for _, c := range ssax.Calls(fn) {
+			h := c.Static
+			if h == nil || h == fn || h.Name() != "Close" || h.Signature.Recv() == nil || h.Pkg != fn.Pkg || h.Signature.Params().Len() != 1 {
+				continue
+			}
+			n++
+			at := c.Instr.(ssa.Instruction)
+			isErrReturn := func(x ssa.Instruction) bool {
+				ret, ok := x.(*ssa.Return)
+				if !ok {
+					return false
+				}
+				for _, rv := range ret.Results {
+					if isErrorType(rv.Type()) {
+						if k, isK := ssax.Strip(rv).(*ssa.Const); !isK || !k.IsNil() {
+							return true
+						}
+					}
+				}
+				return false
+			}
+			bad := ssax.PathFrom(fn, at, isErrReturn, nil)
+			ctx.Check(bad == nil, "C15.R12", ssax.Name(fn)+" › the close is announced on the success path only", r.IPos(at), "no error return is reachable after the announcement",
+				"the base Close (which publishes the close cause) also runs when this Close returns an error — e.g. deferred above a failing Unsubscribe: waiters are told the transport closed cleanly although it did not, and a second Close publishes on the already closed channel (panic)")
+		}
+	}
+	if n == 0 {
+		ctx.Unresolved("C15.R12", "Close", "no FTransport.Close that announces through a base transport")
+	}
+}
